@@ -8,6 +8,8 @@
 //!         | 30 a (fixture: the group's risk admin becomes the authority of account a; 255 = the admin again)
 //!         | 32 b a (collect_bank_fees with a substituted fee ATA: the token account of user a for the bank's mint)
 //!         | 31 b flags (fixture: bank flags word := flags)
+//!         | 39 (the fee admin ROTATES the global fee wallet with the real edit_global_fee_state; nothing is propagated to the
+//!               group; from now on the fee ATA of op 16 is the NEW wallet's) | 40 b (collect_bank_fees with the PREVIOUS wallet's ATA)
 //!         | 38 b old_bps old_max new_bps new_max epoch_new cur_epoch (fixture: pending Token-2022 fee change + clock epoch)
 //! out : per op `<res> # <bank dumps ';'-separated> # <account dumps ';'-separated>` joined by " | "
 use crate::sim::*;
@@ -31,6 +33,8 @@ struct Hw {
     auths: Vec<Pubkey>,
     utok: Vec<Vec<Pubkey>>,
     fee_atas: Vec<Pubkey>,
+    old_fee_atas: Vec<Pubkey>,
+    pf: (I80F48, I80F48),
 }
 
 fn err_s(e: &ExecError) -> String {
@@ -135,6 +139,8 @@ fn run_inner(line: &str, with_ref: bool) -> String {
         auths: vec![],
         utok: vec![],
         fee_atas: vec![],
+        old_fee_atas: vec![],
+        pf: (pf_fixed, pf_rate),
     };
     for i in 0..nb {
         let tmpl = parse_bank(&mut t);
@@ -288,6 +294,26 @@ fn run_inner(line: &str, with_ref: bool) -> String {
                 let b = t.usize();
                 let ctx = bank_ctx(&h.w, &h.banks[b]);
                 let ix = ixs::lending_pool_collect_bank_fees(group, h.banks[b], h.fee_atas[b], h.tprog[b], ctx.mint_prefix.clone());
+                h.w.exec(ix, &[h.admin])
+            }
+            39 => {
+                let nw = mk_wallet(&mut h.w, 1_000_000_000);
+                let ix = ixs::edit_global_fee_state(h.admin, h.admin, nw, 0, 0, h.pf.0.into(), h.pf.1.into(), I80F48::from_num(0.1).into());
+                let r = h.w.exec(ix, &[h.admin]);
+                if r.is_ok() {
+                    h.old_fee_atas = h.fee_atas.clone();
+                    for i in 0..h.banks.len() {
+                        let m = h.mints[i];
+                        h.fee_atas[i] = mk_ata(&mut h.w, m, nw, 0);
+                    }
+                }
+                r
+            }
+            40 => {
+                let b = t.usize();
+                let ctx = bank_ctx(&h.w, &h.banks[b]);
+                let ata = if h.old_fee_atas.is_empty() { h.fee_atas[b] } else { h.old_fee_atas[b] };
+                let ix = ixs::lending_pool_collect_bank_fees(group, h.banks[b], ata, h.tprog[b], ctx.mint_prefix.clone());
                 h.w.exec(ix, &[h.admin])
             }
             32 => {
